@@ -206,6 +206,7 @@ func parse(block txt.Block) (klog.Record, []txt.Error) {
 				return nil
 			}, nil
 		}()
+		entryLineNr := nr(lines) // Capture before advancing to the next line.
 		lines = lines[1:]
 
 		// Check for error while parsing the entry value.
@@ -224,7 +225,7 @@ func parse(block txt.Block) (klog.Record, []txt.Error) {
 				summaryText := entry.Remainder()
 				firstLine, sErr := klog.NewEntrySummary(summaryText.ToString())
 				if sErr != nil {
-					return nil, ErrorMalformedSummary().New(block, nr(lines), 0, summaryText.Length())
+					return nil, ErrorMalformedSummary().New(block, entryLineNr, 0, summaryText.Length())
 				}
 				result = firstLine
 			} else {
@@ -237,13 +238,14 @@ func parse(block txt.Block) (klog.Record, []txt.Error) {
 				if nextEntrySummaryLine == nil {
 					break
 				}
+				summaryLineNr := nr(lines) // Capture before advancing to the next line.
 				lines = lines[1:]
 				additionalText, _ := nextEntrySummaryLine.PeekUntil(func(_ rune) bool {
 					return false // Move forward until end of line
 				})
 				newEntrySummary, sErr := klog.NewEntrySummary(append(result, additionalText.ToString())...)
 				if sErr != nil {
-					return nil, ErrorMalformedSummary().New(block, nr(lines), 0, nextEntrySummaryLine.Length())
+					return nil, ErrorMalformedSummary().New(block, summaryLineNr, 0, nextEntrySummaryLine.Length())
 				}
 				result = newEntrySummary
 			}
